@@ -8,4 +8,5 @@ mkdir -p work evidence replays
 python3 tools/extract.py
 (cd lean && lake build PetgraphModel pgmodel 2>&1 | tail -5)
 (cd harness && cargo build --offline --quiet 2>&1 | grep -E '^error' || true)
+(cd harness && cargo build --offline --quiet --release 2>&1 | grep -E '^error' || true)
 echo setup done
